@@ -170,6 +170,7 @@ func c17(r *Report) {
 	r.ElemsTable(TableSpec{ID: "C17.algs.tokenv2-acceptable", Var: "acceptableSignatureAlgorithm true-cases", Allowed: asymAlgs, Forbidden: forbiddenAlgs, Min: 3}, p.Pos(pos), elems, err)
 	// AddSupportedAlgorithm call sites: constant asymmetric algorithms only
 	c17AddSupported(r)
+	c17Audit3(r, kidAlg, pj, pjs, dp, cis, mw, sigV)
 	// IsAlgorithmSupported returns true only through membership
 	r.Gate(Gate{ID: "C17.algs.membership", Fn: p.Func("crypto/jwx", "", "IsAlgorithmSupported"), Effect: ReturnsBool(0, true), Check: CmpCheck("curr == alg", token.EQL, AnyV(), ParamV("alg"), true)})
 	// writers of the allow-list
